@@ -385,6 +385,15 @@ func (c *Ctx) report(sub string, f *Fail, args any, again func() *Fail) {
 				}
 				break
 			}
+			// Not reproducible alone, neither here nor in fresh processes. The cases of a check run on 16 goroutines, so
+			// the remaining explanation inside the library is state shared between concurrent calls (a package-level
+			// scratch buffer, an unsynchronised table). Run the same case on 8 goroutines at once, in 3 independent
+			// batches of 40 rounds; it is reported only if every batch sees the failure again.
+			if cf := concurrentConfirm(again, f.Key); cf != nil {
+				cf.Detail = "fails only while other calls run concurrently (3 of 3 batches of 8 simultaneous executions; never alone, never in a fresh process): state shared between calls. " + cf.Detail
+				f = cf
+				break
+			}
 			fmt.Fprintf(os.Stderr, "INTERNAL: non-reproducing failure %s (%s)\n", class, f.Detail)
 			c.mu.Lock()
 			c.notes = append(c.notes, "internal: non-reproducing failure "+class)
@@ -414,6 +423,35 @@ func trunc(s string, n int) string {
 		return s[:n] + "..."
 	}
 	return s
+}
+
+// concurrentConfirm re-executes the case on 8 goroutines simultaneously; see report.
+func concurrentConfirm(again func() *Fail, key string) *Fail {
+	var seen *Fail
+	for batch := 0; batch < 3; batch++ {
+		var mu sync.Mutex
+		var got *Fail
+		for round := 0; round < 40 && got == nil; round++ {
+			var wg sync.WaitGroup
+			for g := 0; g < 8; g++ {
+				wg.Add(1)
+				go func() {
+					defer wg.Done()
+					if f := again(); f != nil && f.Key == key {
+						mu.Lock()
+						got = f
+						mu.Unlock()
+					}
+				}()
+			}
+			wg.Wait()
+		}
+		if got == nil {
+			return nil
+		}
+		seen = got
+	}
+	return seen
 }
 
 // FreshRun executes the registered replayer sub on args in a fresh process (this binary, "replay" mode, GOGC=off so
